@@ -1212,6 +1212,26 @@ def check_ld(ts, rts, acc, case):
                             acc.ev(1, nt)
                             if msg:
                                 acc.fail("ld:r2", f"LdCalculator.{via}({a},{b}): {msg}", case)
+                # the same site twice: defined like any other pair; a site id that does not exist is refused
+                S_ = len(rts.sites)
+                for a in range(S_):
+                    e = RS.r2(rts, a, a)
+                    try:
+                        g = ld.r2(a, a)
+                    except Exception as ex:  # noqa
+                        acc.fail("ld:r2_same_site:exception", f"r2({a},{a}) raised {ex!r}", case)
+                        continue
+                    msg, nt = mismatch([g], to_arr([e]))
+                    acc.ev(1, nt)
+                    if msg:
+                        acc.fail("ld:r2_same_site", f"LdCalculator.r2({a},{a}): {msg}", case)
+                for bad in (S_, S_ + 1, -1, 2 ** 31 - 1):
+                    acc.ev(1, True)
+                    try:
+                        g = ld.r2(bad, bad)
+                    except Exception:  # noqa
+                        continue
+                    acc.fail("ld:r2_bad_site_accepted", f"LdCalculator.r2({bad},{bad}) with {S_} sites returned {g!r}", case)
                 check_ld_histories(ts, rts, acc, case)
 
 
